@@ -103,7 +103,12 @@ def listing_worker(job):
         # malformed lists must be rejected
         bad = ['P2SH', '+', '-', '+BOGUS', '-bogus', '+p2sh', '+P2SH,', ',+P2SH', '+P2SH,,-LOW_S', '++P2SH', '+P2SH -LOW_S', '+P2SH;-LOW_S', '*P2SH', '+P2SH,LOW_S', ' +P2SH', '+P2SH ', '+NONE', '-ALL',
                '+' + 'A' * 126, '+' + 'A' * 127, '+' + 'A' * 128, '+' + 'B' * 300, '+' + 'C' * 5000, '+P2SH,' + '-' + 'D' * 200, '+WITNESS\x01']
-        for b in (bad if idx == 0 else rng.sample(bad, 4)):
+        # near misses of real names: every proper prefix, a name with one character more / less, another case
+        near = []
+        for nm in FLAG_NAMES:
+            near += [sg + nm[:k] for sg in '+-' for k in range(1, len(nm))] + ['+' + nm + 'X', '-' + nm + '_', '+' + nm.lower(), '-' + nm[1:], '+' + nm + ' ']
+        near = [b for b in near if b[1:] not in FLAG_NAMES]
+        for b in (bad + rng.sample(near, 40) if idx == 0 else rng.sample(bad, 4) + rng.sample(near, 12) + ['+P2SH,' + rng.choice(near), rng.choice(near) + ',-LOW_S']):
             part.evaluations += 1
             r = proc.run([btcdeb, '-f' + b, 'OP_1'], wd, mode='ptyin', timeout=30)
             wit = dict(list=b[:200], run=r.brief())
@@ -327,7 +332,7 @@ def main():
     for r in parallel(mono_worker, [(bindir, i, 500 if not th else 3000) for i in range(16)]):
         rep.merge(r)
     return rep.finish(
-        rule='(a) all 42 single +/-NAME lists, all-on/all-off, random lists of 1..30 elements with duplicates in both orders, 25 malformed lists (unknown names, missing sign, empty elements, separators, 126..5000-character names), -d; '
+        rule='(a) all 42 single +/-NAME lists, all-on/all-off, random lists of 1..30 elements with duplicates in both orders, 25 malformed lists (unknown names, missing sign, empty elements, separators, 126..5000-character names) and near misses of every real name (each proper prefix, one character more or less, lower case), alone and inside lists, -d; '
              '(b) one probe per flag that has an effect in the debugger (13 flags), each under +X / -X on an unmasking base; (c) chains of 6..10 flag sets ordered by inclusion from none to all 21 flags over '
              'model-steered scripts (base/v0/tapscript), signature contexts and --tx/--txin spends: success under B must imply success under every A subset of B. '
              'non-trivial = distinct exact flag list / rejected malformed list / flipping probe / chain whose verdict changes along the chain',
